@@ -140,6 +140,10 @@ KsCodeQuery(qk, idx, rank, self, nrefs) ==
 (* strand of the occurrence.  where = "end": the occurrence is a prefix or a suffix of the longer        *)
 (* sequence (or the two are equal); "internal": both ends of the longer one overhang - the listed       *)
 (* deviation of the code (such a pair is reported with mismatches, or not at all).                      *)
+(* The clause is stated for overlaps longer than k and of KsMinOverlap symbols or more (the placement  *)
+(* of the two sequences is voted by the 4-mers they share: a handful of symbols cannot outvote chance). *)
+KsMinOverlap == 20
+
 KsOccs(w, t) == {p \in 1..(Len(t) - Len(w) + 1) : SubSeq(t, p, p + Len(w) - 1) = w}
 
 KsExact(q, r) ==
